@@ -313,6 +313,12 @@ var vC02Progs = []struct {
 	{"[xx, yy] + [zz] == [xx, yy, zz]", func(p, q, r int64) (int64, bool) { return 1, true }},
 	{"abs(xx - yy) >= 0 || xx - yy == xx - yy", func(p, q, r int64) (int64, bool) { return 1, true }},
 	{"1 / 0; xx", func(p, q, r int64) (int64, bool) { return 0, false }},
+	{"v1 = [xx, yy, zz]; v1.pop(); v2 = v1 + [7]; v3 = v1 + [8]; v2[2]", func(p, q, r int64) (int64, bool) { return 7, true }},
+	{"v1 = [xx, yy]; v2 = v1 + []; v2[0] = zz; v1[0]", func(p, q, r int64) (int64, bool) { return p, true }},
+	{"v1 = [xx, yy, zz, 1, 2]; v2 = v1 + [6]; v3 = v1 + [60]; v2[5]", func(p, q, r int64) (int64, bool) { return 6, true }},
+	{"v1 = [xx]; v1.push(yy); v2 = v1 + [zz]; v1.push(5); v2[2]", func(p, q, r int64) (int64, bool) { return r, true }},
+	{"v1 = [xx, yy] * 2; v1[0] = zz; v1[2]", func(p, q, r int64) (int64, bool) { return p, true }},
+	{"v1 = [xx, yy, zz]; v2 = v1[0:2]; v2[0] = 9; v1[0]", func(p, q, r int64) (int64, bool) { return p, true }},
 	{"`{xx}+{yy}` == toStr(xx) + '+' + toStr(yy)", func(p, q, r int64) (int64, bool) { return 1, true }},
 }
 
@@ -323,7 +329,7 @@ func b2i(b bool) int64 {
 	return 0
 }
 
-//vh:prop=C02 tiers=quick,thorough sigkeys=prog unwind=12 budget_s=1200 bounds="40 programs covering precedence and grouping, short-circuit operators returning operands, ternary and multi-arm conditions, if / else-if / else, while with break and continue, functions with early return and local scope, computed values reading later assignments, array and dict aliasing, negative indices, slices and slice assignment, container equality, whitespace/newline/parenthesis variants, and an erroring statement; integer variables xx, yy, zz are 64-bit symbols; second evaluation on the same VM (after the first, including failed ones) must agree again"
+//vh:prop=C02 tiers=quick,thorough sigkeys=prog unwind=12 budget_s=1200 bounds="46 programs covering precedence and grouping, short-circuit operators returning operands, ternary and multi-arm conditions, if / else-if / else, while with break and continue, functions with early return and local scope, computed values reading later assignments, array and dict aliasing (results of + * and slicing are fresh arrays, also after pop/push), negative indices, slices and slice assignment, container equality, whitespace/newline/parenthesis variants, and an erroring statement; integer variables xx, yy, zz are 64-bit symbols; second evaluation on the same VM (after the first, including failed ones) must agree again"
 func VH_C02_prog() {
 	k := vParam("prog", -1)
 	if k < 0 {
